@@ -148,7 +148,13 @@ class World:
                 return fs
             h = op[1] % len(self.handles)
             text, lst = self.handles[h]
-            self._edit(lst, op[2], op[3])
+            try:
+                self._edit(lst, op[2], op[3])
+            except (AttributeError, TypeError):
+                # an immutable sequence cannot be edited: nothing to inject
+                st["edit_not_applicable"] += 1
+                self.res.events.append(f"edit {h} {op[2]} n/a")
+                return fs
             st["fault.client_edit_" + op[2]] += 1
             self.seen.setdefault(text, set()).add("edited")
             self.res.events.append(f"edit {h} {op[2]}")
@@ -203,7 +209,7 @@ class World:
                 fs.append(Finding("C10", {"clause": "terminates", "op": "tokenize"},
                                   f"tokenize({text!r}) did not return within {OP_BUDGET_S}s"))
             if got[0] == "ok":
-                if any(lst is l for _, l in self.handles):
+                if isinstance(lst, list) and any(lst is l for _, l in self.handles):
                     fs.append(Finding("C12", {"clause": "history", "op": "tokenize", "diff": "aliased-list"},
                                       f"tokenize({text!r}) returned a list object it had handed out before"))
                 self.handles.append((text, lst))
